@@ -184,6 +184,7 @@ class Item:
         self.keep_derives = False
         self.keep_vis = False
         self.no_derives = False
+        self.keep_variants = None
         self.pre = []
         self.line = line
 
@@ -255,6 +256,9 @@ def parse_sidecar(path):
                 if not m:
                     raise SpecError('%s:%d: bad sig' % (path, ln))
                 item.sigsubs.append((m.group(1), _unq(m.group(2)), _unq(m.group(3))))
+                cur = None
+            elif key == 'keep-variants':
+                item.keep_variants = rest.split()
                 cur = None
             elif key == 'no-derives':
                 item.no_derives = True
@@ -464,6 +468,44 @@ def build(repo, sidecar_path, extra_spec=None):
         where = '%s:%d %s %s' % (item.path, src_line0, item.kind, item.name)
         sha = hashlib.sha256(raw.encode()).hexdigest()
         text = dedent(raw)
+        if item.keep_variants is not None and item.kind == 'enum':
+            # R7 for enums: keep only the variants the extracted functions name; every other variant
+            # is represented by one catch-all (the extracted code treats them uniformly via `_`)
+            bo = body_open(text, 0)
+            inner = text[bo + 1:text.rindex('}')]
+            parts, depth, cur_ = [], 0, ''
+            for k_, a_, b_ in tokens(inner):
+                pass
+            i_ = 0
+            for ch in inner:
+                if ch in '([{<':
+                    depth += 1
+                elif ch in ')]}>':
+                    depth -= 1
+                if ch == ',' and depth == 0:
+                    parts.append(cur_)
+                    cur_ = ''
+                else:
+                    cur_ += ch
+            if cur_.strip():
+                parts.append(cur_)
+            kept, dropped = [], []
+            for pt in parts:
+                body_nc = re.sub(r'//[^\n]*', '', pt).strip()
+                body_nc = re.sub(r'#\[[^\]]*\]', '', body_nc).strip()
+                m_ = re.match(r'([A-Za-z_][A-Za-z0-9_]*)', body_nc)
+                if not m_:
+                    continue
+                if m_.group(1) in item.keep_variants:
+                    kept.append('    ' + body_nc)
+                else:
+                    dropped.append(m_.group(1))
+            missing = [v for v in item.keep_variants if not any(k.strip().startswith(v) for k in kept)]
+            if missing:
+                raise ExtractionLost('%s: variants not found: %s' % (where, missing))
+            text = text[:bo + 1] + '\n' + ',\n'.join(kept) + ',\n    VerifOtherVariants,\n}'
+            g.rewrites.append({'tag': 'R7e', 'where': where, 'before': 'variants ' + ', '.join(dropped),
+                               'after': 'single catch-all variant VerifOtherVariants', 'count': len(dropped)})
         # -- rewrites on the repository text
         if item.kind == 'fn':
             text = remove_log_statements(text, g.rewrites, where)
